@@ -12,7 +12,8 @@ RULE = (
     "categories, FillSimple), crossed with a fixed edge-value list and Hypothesis-generated value vectors "
     "(finite floats, |x| in {0} U [1e-30,1e30], values next to the affine offsets). Oracles: u->u returns the "
     "object itself; u->v->u and tobase/frombase round trips within 1e-12*S; u->w == u->v->w within 1e-12*S; "
-    "order never swapped, strictly kept for clearly separated values; slope>0. Non-trivial = u!=v, at least one "
+    "order never swapped, strictly kept for clearly separated values; slope>0; the exponent-list form "
+    "[(u,e)]->[(v,e)] (e = 2, 3, -2, scale-only units, negative values included) round-trips, keeps the sign and the order. Non-trivial = u!=v, at least one "
     "side has a conversion, x!=0; distinct key = (config, quantity type, u, v[, w])."
 )
 ASSUMPTIONS = [
@@ -157,6 +158,44 @@ class Sweep:
                     ctx.cls("pairs_scaled_to_scaled")
 
 
+def exp_form_checks(sw, qt, u, partners):
+    """The exponent-list form of Convert, [(u,e)] -> [(v,e)]: round trip, sign and order for e in 2, 3, -2
+    (scale-only units; the form is defined through the unit ratio)."""
+    ctx, db, um = sw.ctx, sw.db, sw.um
+    if um.offset[u] != 0 or u in sw.bad_units:
+        return
+    vals = [-9.0, -4.0, 0.5, 3.0, 250.0]
+    for v in partners:
+        if v == u or um.offset[v] != 0 or v in sw.bad_units:
+            continue
+        for e in (2, 3, -2):
+            ys = []
+            for x in vals:
+                ctx.ev()
+                try:
+                    y = db.Convert(qt, [(u, e)], [(v, e)], x)
+                    z = db.Convert(qt, [(v, e)], [(u, e)], y)
+                except (OverflowError, ZeroDivisionError):
+                    ys = None
+                    break
+                ys.append(y)
+                case = {"config": sw.cfg, "qt": qt, "u": u, "v": v, "x": x, "e": e, "kind": "expform"}
+                if not (math.isfinite(y) and y != 0):
+                    continue
+                if (y > 0) != (x > 0):
+                    ctx.record("exponent_form_sign_changed:%s" % sw.cfg, case, "Convert(%r,[(%r,%d)],[(%r,%d)],%r) = %r (sign changed)" % (qt, u, e, v, e, x, y))
+                    break
+                if not core.close(z, x, abs(x), 1e-9):
+                    ctx.record("exponent_form_roundtrip:%s" % sw.cfg, case, "exponent form %s^%d -> %s^%d -> back: %r came back as %r" % (u, e, v, e, x, z))
+                    break
+            if ys and all(math.isfinite(t) for t in ys):
+                for (x1, y1), (x2, y2) in zip(zip(vals, ys), zip(vals[1:], ys[1:])):
+                    if (x1 > 0) == (x2 > 0) and ((y1 > y2) if e > 0 else False):
+                        ctx.record("exponent_form_order_swapped:%s" % sw.cfg, {"config": sw.cfg, "qt": qt, "u": u, "v": v, "x": x1, "e": e, "kind": "expform"}, "%r<%r but the exponent form (e=%d, %s->%s) gives %r > %r" % (x1, x2, e, u, v, y1, y2))
+                        break
+        ctx.cls("exponent_form_pairs")
+
+
 def _simplicity(x):
     return (abs(math.log10(abs(x))) if x else 0.5, x < 0)
 
@@ -214,6 +253,15 @@ def run_shard(spec, ctx):
                     return
                 sw.row_checks(qt, u, values, w_offsets)
 
+        # exponent-list form: every unit with two partners (all partners in thorough)
+        for k, (qt, u) in enumerate(mine):
+            us = [i.unit for i in db.quantity_types[qt]]
+            if len(us) < 2:
+                continue
+            iu = us.index(u)
+            partners = us if tier == "thorough" else [us[(iu + 1) % len(us)], us[(iu + 1 + spec["seed"] + k) % len(us)]]
+            exp_form_checks(sw, qt, u, partners)
+
         if tier == "thorough":
             # edge values in two halves to bound memory/time per row
             sweep(edge, None)
@@ -251,7 +299,12 @@ def replay(case, ctx):
         sw = Sweep(ctx, cfg, db)
         qt = case["qt"]
         kind = case["kind"]
-        if kind in ("slope", "inverse", "same"):
+        if kind == "expform":
+            sw.unit_checks(qt, _prep_values(gen.EDGE_VALUES))
+            sw.bad_units.discard(case["u"])
+            sw.bad_units.discard(case["v"])
+            exp_form_checks(sw, qt, case["u"], [case["v"]])
+        elif kind in ("slope", "inverse", "same"):
             vals = _prep_values(gen.EDGE_VALUES + ([case["x"]] if isinstance(case.get("x"), float) else []))
             sw.unit_checks(qt, vals)
         else:
